@@ -3,6 +3,9 @@ use simplesl_macros::export;
 
 #[export(FS)]
 mod inner {
+    #[cfg(simplesl_verif)]
+    use simplesl_verif_seams::fs;
+    #[cfg(not(simplesl_verif))]
     use std::fs;
     pub use std::io;
     pub fn file_read_to_string(path: &str) -> io::Result<String> {
